@@ -315,7 +315,7 @@ func (p *C02) Gen(seed uint64, i int, tier string) *scen.Scenario {
 	n := r.Range(4, 20)
 	// crowd episodes: 4-8 caller tasks, all on one logger, with destinations that take their time - many calls of one
 	// logger in flight at once (what a hand-over or batching scheme between callers needs to go wrong)
-	crowd := scen.Mix(seed, 1002, uint64(i))%10 == 0
+	crowd := scen.Mix(seed, 1002, uint64(i))%8 == 0
 	crowdL := loggers[int(scen.Mix(seed, 1003, uint64(i))%uint64(len(loggers)))]
 	if crowd {
 		n = 12 + int(scen.Mix(seed, 1004, uint64(i))%20)
@@ -422,13 +422,16 @@ func (p *C02) Gen(seed uint64, i int, tier string) *scen.Scenario {
 		// the same calls from 2-3 concurrent caller tasks (CONC engine): the per-call I/O history must not change
 		G := r.Range(2, 3)
 		if crowd {
-			G = r.Range(4, 8)
-			for k := r.Range(2, 8); k > 0; k-- {
-				sc.Faults = append(sc.Faults, scen.Fault{W: -1, Attempt: r.Intn(n), Kind: "stall", N: r.Range(1, 4)})
+			G = r.Range(4, 10)
+			for k := r.Range(3, 10); k > 0; k-- {
+				sc.Faults = append(sc.Faults, scen.Fault{W: -1, Attempt: r.Intn(n), Kind: "stall", N: r.Range(1, 8)})
 			}
 		}
 		sc.Engine = "CONC"
 		sc.Sched = scen.SchedCfg{StayPermille: r.Range(300, 950)}
+		if crowd && r.Bool() {
+			sc.Sched.StayPermille = r.Range(100, 500) // callers take turns often
+		}
 		for t := 1; t <= G; t++ {
 			sc.Tasks = append(sc.Tasks, scen.Task{ID: t})
 		}
